@@ -12,7 +12,9 @@
 (*   CauchyCDFInverse.forward [0, 1]                                       *)
 (* Input classes are positions relative to one end of the interval; the    *)
 (* harness maps them to concrete floats (including 1 ulp neighbours,       *)
-(* denormals and -0.0).                                                    *)
+(* denormals and -0.0).  The domain does not depend on the module's mode   *)
+(* (train / eval) nor on how the call arrives (directly, through a         *)
+(* CompositeTransform, or as the other direction of an InverseTransform).  *)
 (***************************************************************************)
 EXTENDS Integers, FiniteSets, TLC
 
@@ -30,8 +32,8 @@ Classes == {"far_below", "below_tiny", "below_ulp", "at_lo", "above_lo_ulp", "in
 OutsideLo == {"far_below", "below_tiny", "below_ulp"}
 OutsideHi == {"above_hi_ulp", "above_tiny", "far_above"}
 
-VARIABLES tr, cls, batch, pos, outcome
-vars == <<tr, cls, batch, pos, outcome>>
+VARIABLES tr, cls, batch, pos, mode, via, outcome
+vars == <<tr, cls, batch, pos, mode, via, outcome>>
 
 InDomain(t, c) ==
   IF c \in OutsideLo THEN FALSE
@@ -44,6 +46,7 @@ Init ==
   /\ tr \in Transforms /\ cls \in Classes
   /\ batch \in {1, 3}                 \* rows of the batch; every other element is well inside
   /\ pos \in 1..3 /\ pos <= batch * 1 + 2   \* flat position of the probed element (3 features per row)
+  /\ mode \in {"train", "eval"} /\ via \in {"direct", "composite", "inverse"}
   /\ outcome = IF InDomain(tr, cls) THEN "Value" ELSE "InputOutsideDomain"
 Next == UNCHANGED vars
 Spec == Init /\ [][Next]_vars
